@@ -159,7 +159,7 @@ where
     I: Zero + FromPrimitive + OverflowingAdd + OverflowingMul,
 {
     #![allow(clippy::or_fun_call)]
-    if reader.buf_len() < offset + 8 {
+    if reader.buf_len() < offset.saturating_add(8) {
         return ascii_digits_multi_cold(reader, offset);
     }
     let word = unsafe { u64::from_le_bytes(*(reader.buf_ptr().add(offset) as *const [u8; 8])) };
@@ -198,7 +198,7 @@ where
     I: Zero + FromPrimitive + OverflowingAdd + OverflowingSub + OverflowingMul,
 {
     #![allow(clippy::or_fun_call)]
-    if reader.buf_len() < offset + 8 {
+    if reader.buf_len() < offset.saturating_add(8) {
         return signed_ascii_digits_multi_cold(reader, offset);
     }
     let word = unsafe { u64::from_le_bytes(*(reader.buf_ptr().add(offset) as *const [u8; 8])) };
